@@ -333,6 +333,23 @@ def run_scoped_state(rec, S, fields=("try_attributes", "loop_attributes", "class
                 if not ok2:
                     rec.finding(R, "F2.scope/try_/order", "Compiler::try_ does not keep its TryAttributes installed exactly while the protected block is compiled (install, block, restore, then the catch clauses): exits from the wrong region pop (or fail to pop) this try's handler", loc=L(COMPILER, last[0]), fn="try_")
     rec.floor(R, "save/restore sites of compiler nesting state", n, 3)
+    # a nested function starts with no enclosing try or loop of its own: those are dynamic per frame, only the class is lexical
+    ch = fns.get("child")
+    if ch is None:
+        rec.anchor_lost("F2.scope", "Compiler::child")
+    else:
+        from ..facts import walk_expr as _we
+        init = {}
+        for x in _we(ch.get("body") or {}):
+            if isinstance(x, dict) and x.get("e") == "struct":
+                for fname_, fexpr in x.get("fields") or []:
+                    if fname_ in ("try_attributes", "loop_attributes"):
+                        init[fname_] = synq.src(fexpr).strip()
+        for fld in ("try_attributes", "loop_attributes"):
+            okc = init.get(fld) == "None"
+            rec.inst(R, "child: %s starts as None" % fld, ok=okc, loc=L(COMPILER, ch["line"]), note=str(init.get(fld)))
+            if not okc:
+                rec.finding(R, "F2.scope/child/%s" % fld, "Compiler::child initialises %s with `%s`: a function declared inside a %s inherits it, so its own return/break/continue emit a PopHandler (or jump) that belongs to the enclosing function's frame - a normal return of the inner function pops the caller's active handler" % (fld, init.get(fld), "try block" if fld.startswith("try") else "loop"), loc=L(COMPILER, ch["line"]), fn="child")
 
 
 def run_handlers(rec, S, F):
@@ -378,6 +395,17 @@ def run_handlers(rec, S, F):
         rec.inst(R, "%s: PopHandler guard before %s" % (fname, transfer), ok=ok, loc=L(COMPILER, f["line"]))
         if not ok:
             rec.finding(R, "F2.h/exit/%s" % fname, "%s transfers control out of a possible try block without emitting the guarded PopHandler first: the handler stays active after its block was left" % fname, loc=L(COMPILER, f["line"]), fn=fname)
+        # the handler stays active while the exit's own operand is evaluated: `try { return f(x); }` delivers an error raised by f(x) to this try
+        allev = synq.events(f)
+        exprs = [e for e in allev if e.kind == "call" and e.name == "expr" and synq.src(e.node.get("recv")) in ("self", "self_")]
+        if exprs and pops:
+            pops_all = [e for e in allev if e.kind == "op" and e.name == "PopHandler"]
+            pos = {id(e): i for i, e in enumerate(allev)}
+            # same arm: the pop that follows an operand in its own arm
+            oko = all(pos[id(e)] < pos[id(p)] for e in exprs for p in pops_all if all(c in p.ctx for c in e.ctx if c[0] == "arm"))
+            rec.inst(R, "%s: operand compiled before the PopHandler" % fname, ok=oko, loc=L(COMPILER, f["line"]))
+            if not oko:
+                rec.finding(R, "F2.h/exit-order/%s" % fname, "%s emits PopHandler before it compiles the value being returned: an error raised while evaluating `return <expr>` inside a try is no longer delivered to that try's catch clause" % fname, loc=L(COMPILER, f["line"]), fn=fname)
         in_loop = any(c[0] in ("for", "while", "loop") for p in pops for c in p.ctx)
         if pops and not in_loop:
             bounded.append(fname)
